@@ -291,14 +291,24 @@ fn main() {
                 let exe = std::env::current_exe().expect("current_exe");
                 let mut procs = 0;
                 let worker_counts: Vec<usize> = match cfg.tier {
-                    Tier::Quick => vec![1, 16],
+                    Tier::Quick => vec![1, 3, 7, 16],
                     Tier::Thorough => vec![1, 2, 3, 4, 5, 7, 8, 11, 16, 16, 1, 2, 3, 4, 5, 7, 8, 11, 16, 1],
                 };
-                for w in worker_counts {
-                    let out = std::process::Command::new(&exe)
-                        .args(["digests", "C15", &n.to_string(), "--workers", &w.to_string(), "--seed", &cfg.seed.to_string(), "--tier", cfg.tier.name(), "--scale", &cfg.scale.to_string()])
-                        .output()
-                        .expect("spawn digests child");
+                // all child processes run concurrently (they are independent)
+                let children: Vec<(usize, std::process::Child)> = worker_counts
+                    .iter()
+                    .map(|&w| {
+                        let c = std::process::Command::new(&exe)
+                            .args(["digests", "C15", &n.to_string(), "--workers", &w.to_string(), "--seed", &cfg.seed.to_string(), "--tier", cfg.tier.name(), "--scale", &cfg.scale.to_string()])
+                            .stdout(std::process::Stdio::piped())
+                            .stderr(std::process::Stdio::piped())
+                            .spawn()
+                            .expect("spawn digests child");
+                        (w, c)
+                    })
+                    .collect();
+                for (w, child) in children {
+                    let out = child.wait_with_output().expect("wait digests child");
                     if !out.status.success() {
                         exec::harness_error(format!("digests child failed: {}", String::from_utf8_lossy(&out.stderr)));
                     }
